@@ -250,15 +250,41 @@ pub fn generate(cx: &super::GenCtx) -> Vec<Plan> {
     let n = if thorough { rng.range(1, 40) } else { rng.range(1, 20) };
     let eof_at = if rng.chance(1, 3) { Some(rng.below(n + 1)) } else { None };
     let mut script = vec![];
+    let mut last_position: Option<Vec<String>> = None;
     for i in 0..n {
         if eof_at == Some(i) {
             break;
         }
-        script.push(Action::send(random_line(&mut rng)));
+        let mut line = random_line(&mut rng);
+        // GUI-like related position commands: the previous one extended, cut back or repeated
+        if let Some(prev) = &last_position {
+            if rng.chance(1, 6) {
+                let mi = prev.iter().position(|t| t == "moves");
+                let mut t = prev.clone();
+                match (mi, rng.below(3)) {
+                    (Some(m), 0) => t.truncate((m + 1 + rng.usize_below(t.len() - m)).min(t.len())),
+                    (Some(m), 1) => t.truncate(m),
+                    _ => {}
+                }
+                if t.last().map(String::as_str) == Some("moves") {
+                    t.pop();
+                }
+                line = t.join(" ");
+            }
+        }
+        let toks: Vec<String> = line.split_whitespace().map(str::to_string).collect();
+        if toks.first().map(String::as_str) == Some("position") && fen_rule_ok(&line) {
+            last_position = Some(toks);
+        }
+        script.push(Action::send(line));
         if rng.chance(1, 8) {
             script.push(Action::DelaySteps(rng.below(400)));
         }
-        script.push(Action::send("isready"));
+        // the line before end-of-input is not always followed by a probe
+        let last_before_eof = eof_at == Some(i + 1) || (eof_at.is_some() && i + 1 == n);
+        if !(last_before_eof && rng.chance(1, 2)) {
+            script.push(Action::send("isready"));
+        }
     }
     gen::decorate_all(&mut script, &mut rng, 2);
     if eof_at.is_some() {
@@ -386,7 +412,7 @@ pub fn check(plans: &[Plan], recs: &[RunRec]) -> Outcome {
             out.violations.push(Violation::new(
                 "exit_overdue",
                 format!(
-                    "{} was seen but the command loop had not returned after other threads did {} more work ticks",
+                    "{} was seen but the command loop was still blocked after other threads did {} more work ticks",
                     if quit_seen { "quit" } else { "end-of-input" },
                     super::super::kernel::EXIT_ALLOW_TICKS
                 ),
